@@ -551,8 +551,8 @@ def run(ctx, build, verdict, ev):
 
     rng = ctx.rng
     thorough = ctx.tier == "thorough"
-    n_variants = ctx.n(1, 8)
-    n_random = ctx.n(500, 20000)
+    n_variants = ctx.n(1, 6)
+    n_random = ctx.n(500, 14000)
     n_rows = ctx.n(3, 6)
 
     engines = []  # (class label, desc)
@@ -638,7 +638,7 @@ def run(ctx, build, verdict, ev):
             kind = " ".join(m.strip("()").split()[:2]) if m.startswith("(MMissing") else m.strip("()").split()[0]
             msg_kinds[kind] = msg_kinds.get(kind, 0) + 1
         signatures.add((tuple(re.sub(r"\d+", "#", m) for m in msgs), tuple(sorted({o for _, o, _ in outcomes}))))
-        if len(samples) < 4 and origin == "canonical" and cell.startswith(("01000/or/integral/1", "11111/both", "00000/and", "00100/none")):
+        if origin == "canonical" and cell in ("01000/or/integral/1", "11000/or/weighted/1", "11111/both/integral/2", "00000/both/integral/1", "00100/none/weighted/1"):
             samples.append({"cell": cell, "rules": [r["text"] for b in desc["blocks"] for r in b["rules"]], "is_ready": errors,
                             "process": outcomes[0][1] + " " + outcomes[0][2]})
         # ---- direct oracle
